@@ -1,5 +1,6 @@
 /- GENERATED from the Go source by /verif/extract on every run. Do not edit. -/
 import TunnoxModel.Model.PredPrelude
+import TunnoxModel.Gen.Models
 import TunnoxModel.Model.C19Types
 open Tunnox.PredPrelude
 namespace Gen
@@ -16,13 +17,6 @@ def HTTPDomainMappingStatusInactive : String := "inactive"
 def HTTPDomainMappingStatusExpired : String := "expired"
 def HTTPDomainDeleteClaimTTL : Nat := 30000000000
 end repos
-
-namespace models
-def MappingStatusActive : String := "active"
-def MappingStatusInactive : String := "inactive"
-def MappingStatusError : String := "error"
-def ProtocolHTTP : String := "http"
-end models
 
 namespace coreerrors
 def CodeNotFound : String := "NOT_FOUND"
